@@ -127,6 +127,13 @@ pub fn scaled_cases(thorough: bool) -> (Vec<Case>, Value) {
         cross(families::a1(Entropy::Constant), &cfgs_for(&[0, 5, 11]), "A1", &mut cases);
     } else {
         cross(families::a1(Entropy::Noise), &cfgs_for(&[5]), "A1", &mut cases);
+        // highly compressible content: compressed blocks of a few bytes, several per encryption chunk
+        cross(families::a1(Entropy::Constant), &cfgs_for(&[5]), "A1", &mut cases);
+    }
+    // RB: the structurally rich base programs the other checks start from (so that a writer which refuses or
+    // garbles one of them is reported here and not only makes those checks lose a base), three entropies
+    for e in [Entropy::Pattern, Entropy::Noise, Entropy::Constant] {
+        cross(families::bases(e), &cfgs_for(&[1, 5]), "RB", &mut cases);
     }
     // A2 two pieces
     let a2 = families::a2(Entropy::Pattern);
@@ -209,6 +216,7 @@ pub fn scaled_cases(thorough: bool) -> (Vec<Case>, Value) {
         cases.push(Case { p, cfg: Cfg { layers: l, level: 5, recipients: 16 }, keys: vec![0], family: "R" });
     }
     let bounds = json!({
+        "RB": "the 9 structurally rich base programs shared with the other checks x 3 entropies x levels {1,5}",
         "SW": "program tree (<=3 files, <=6 ops, <=2 appends of {1, chunk+1, block+1}) with every append performed through helpers::StreamWriter in 7-byte writes",
         "M": "300 files added back to back; 20 files started together then fed round-robin for 12 rounds (240 runs) and ended in reverse order",
         "A1": format!("one file, one piece, every size 0..={} x 4 layer combos x levels {:?}", families::a1_max(), lv_a1),
